@@ -1,6 +1,7 @@
 package rules
 
 import (
+	"go/constant"
 	"go/token"
 	"go/types"
 	"sort"
@@ -91,7 +92,8 @@ func nonEmptyContributionAs(c *Ctx, rule string) {
 				first := e.From.Succs[e.Succ].Instrs[0]
 				for _, ret := range ssax.Returns(fn) {
 					for _, lf := range ssax.Leaves(ret.Results[0], ret) {
-						if ssax.IsNilConst(lf.V) && (lf.At == first || ssax.ReachableFrom(fn, first, lf.At, nil, nil)) {
+						// (behind a "first failed check" loop every listed check returned nil)
+						if ssax.IsNilConst(lf.V) && (lf.At == first || ssax.ReachableFrom(fn, first, lf.At, ssax.AllNilCuts(fn, lf.At), nil)) {
 							ok, detail = false, "Validate can still return nil after finding the contribution empty"
 						}
 					}
@@ -134,6 +136,11 @@ func c05Engine(c *Ctx) {
 			continue
 		}
 		cbs := ssax.CallsTo(fn, load.Module+"/fsm/fsm.(FSM).execCallback")
+		// the callback may also be fetched from f.callbacks and called in place
+		cbs = append(cbs, ssax.Calls(fn, false, func(ci ssa.CallInstruction) bool {
+			cc := ci.Common()
+			return !cc.IsInvoke() && cc.StaticCallee() == nil && strings.Contains(ssax.Path(cc.Value), ".callbacks[")
+		})...)
 		sets := ssax.CallsTo(fn, load.Module+"/fsm/fsm.(FSM).SetState")
 		if len(cbs) == 0 || len(sets) == 0 {
 			r.Unknown("C05/E2", "fsm.(*FSM)."+name, "engine must call execCallback and SetState", c.Pos(fn.Pos()), "calls not found")
@@ -998,6 +1005,23 @@ func c05Handover(c *Ctx, rule string, want map[string]string) {
 	for _, call := range ssax.CallsTo(fn, load.Module+"/fsm/state_machines.(FSMInstance).Do") {
 		ev, ok := ssax.ConstString(call.Common().Args[1])
 		if !ok {
+			// table-driven hand-over: Do(row.event) under resp.State == row.state for a row of a constant table
+			if rf, isRow := ssax.AsRowFieldFn(fn, call.Common().Args[1], isRespState); isRow {
+				if rows, okR := ssax.RowEntries(rf.Global); okR {
+					for _, row := range rows {
+						rev, ok1 := rowString(row, rf.Field)
+						rst, ok2 := rowString(row, rf.KeyField)
+						if !ok1 {
+							continue
+						}
+						if st, wanted := want[rev]; wanted {
+							found[rev]++
+							r.Check(ok2 && rst == st, rule, sprintf("node.processMessage:Do(%s)#%d", rev, found[rev]),
+								"Do("+rev+") only under resp.State == "+st, c.PosOf(call), "the hand-over table issues "+rev+" under resp.State == "+rst)
+						}
+					}
+				}
+			}
 			continue
 		}
 		st, ok := want[ev]
@@ -1014,6 +1038,23 @@ func c05Handover(c *Ctx, rule string, want map[string]string) {
 			r.Fail(rule, "node.processMessage:Do("+ev+")", "hand-over event is issued by the node", c.Pos(fn.Pos()), "no call Do("+ev+") in processMessage: the round could never leave "+want[ev])
 		}
 	}
+}
+
+// isRespState: v reads (<*fsm.Response>).State.
+func isRespState(v ssa.Value) bool {
+	ld, ok := ssax.Resolve(v).(*ssa.UnOp)
+	if !ok {
+		return false
+	}
+	fa, ok := ld.X.(*ssa.FieldAddr)
+	return ok && ssax.FieldOf(fa) != nil && ssax.FieldOf(fa).Name() == "State" && ssax.OwnerName(fa) == "Response"
+}
+
+func rowString(row []constant.Value, i int) (string, bool) {
+	if i < 0 || i >= len(row) || row[i] == nil || row[i].Kind() != constant.String {
+		return "", false
+	}
+	return constant.StringVal(row[i]), true
 }
 
 // respStateEdges: edges on which (<*fsm.Response>).State == st.
